@@ -110,7 +110,7 @@ package types
 
 // A header copy has the same commitments and scalar fields; its big integers are private copies.
 //@ func CopyHeader
-//@   requires[C01] h != nil
+//@   requires[C01v] h != nil
 //@   ensures[C01] @same result != nil && fresh(result) && result.ParentHash == h.ParentHash && result.UncleHash == h.UncleHash && result.Root == h.Root
 //@     && result.TxHash == h.TxHash && result.ReceiptHash == h.ReceiptHash && result.Bloom == h.Bloom && result.GasUsed == h.GasUsed && result.GasLimit == h.GasLimit
 //@     && result.Version == h.Version && result.Nonce == h.Nonce && result.MixDigest == h.MixDigest && result.Coinbase == h.Coinbase
